@@ -2,6 +2,7 @@
 Implementation of hooks and APIs for outputting log messages.
 """
 
+import os
 import traceback
 import inspect
 from threading import Lock, RLock
@@ -539,3 +540,16 @@ def to_file(output_file, encoder=None, json_default=json_default):
 
 # The default Logger, used when none is specified:
 _DEFAULT_LOGGER = Logger()
+
+
+def _new_buffering_lock_after_fork():
+    """
+    A process forked while another thread was logging (before any destination
+    had been added) inherits the buffering lock in its locked state, with no
+    thread left to release it: give the child a lock of its own.
+    """
+    Logger._destinations._buffering_lock = RLock()
+
+
+if hasattr(os, "register_at_fork"):
+    os.register_at_fork(after_in_child=_new_buffering_lock_after_fork)
